@@ -105,6 +105,11 @@ Record st := mkSt {
 }.
 Record env := mkEnv { e_mutable : filt; e_streams : list N; e_classes : classes; e_params : N; e_perturb : N }.
 
+(* arrays are int64: arithmetic wraps modulo 2^64 *)
+Definition wrap64 (z : Z) : Z := ((z + 9223372036854775808) mod 18446744073709551616 - 9223372036854775808)%Z.
+Definition add64 (a b : Z) : Z := wrap64 (a + b).
+Definition mul64 (a b : Z) : Z := wrap64 (a * b).
+
 (* broadcasting elementwise operation: equal lengths, or one side of length 1 *)
 Definition vop (f : Z -> Z -> Z) (a b : vec) : option vec :=
   if Nat.eqb (length a) (length b) then Some (map (fun xy => f (fst xy) (snd xy)) (combine a b))
@@ -120,9 +125,9 @@ Fixpoint eval (locals : list (N * vec)) (input : vec) (e : expr) : option vec :=
   | EInput => Some input
   | ELocal x => lassoc x locals
   | EConst v => Some v
-  | EAdd a b => match eval locals input a, eval locals input b with Some x, Some y => vop Z.add x y | _, _ => None end
-  | EMul a b => match eval locals input a, eval locals input b with Some x, Some y => vop Z.mul x y | _, _ => None end
-  | ESum a => match eval locals input a with Some x => Some [fold_right Z.add 0%Z x] | None => None end
+  | EAdd a b => match eval locals input a, eval locals input b with Some x, Some y => vop add64 x y | _, _ => None end
+  | EMul a b => match eval locals input a, eval locals input b with Some x, Some y => vop mul64 x y | _, _ => None end
+  | ESum a => match eval locals input a with Some x => Some [fold_right add64 0%Z x] | None => None end
   end.
 
 (* reservations of one Scope object: name -> the collections (None = a child scope) it is reserved for *)
@@ -244,7 +249,7 @@ Section Interp.
                 | None => Ok (mkFrame ((x, v) :: f_locals fr1) (f_resv fr1) (f_auto fr1) (f_insts fr1), s1)
                 | Some _ =>
                     match get_var (s_vars s1) col p nm with
-                    | Some (SVec old) => match vop Z.add v old with
+                    | Some (SVec old) => match vop add64 v old with
                                          | Some v' => Ok (mkFrame ((x, v') :: f_locals fr1) (f_resv fr1) (f_auto fr1) (f_insts fr1), s1)
                                          | None => Err EOther end
                     | _ => Err EPerturbMissing
